@@ -14,3 +14,18 @@ pub(crate) mod c12_states;
 
 #[path = "/verif/harness/c07_convert.rs"]
 pub(crate) mod c07_convert;
+
+#[path = "/verif/harness/c17_attrs.rs"]
+pub(crate) mod c17_attrs;
+
+#[path = "/verif/harness/c09_finite.rs"]
+pub(crate) mod c09_finite;
+
+#[path = "/verif/harness/c08_mods.rs"]
+pub(crate) mod c08_mods;
+
+#[path = "/verif/harness/c04_reuse.rs"]
+pub(crate) mod c04_reuse;
+
+#[path = "/verif/harness/c13_acc.rs"]
+pub(crate) mod c13_acc;
